@@ -1301,6 +1301,127 @@ theorem accept_iff_partial_D (reg : List (Str × DecK)) (rb : ReqBody) (ct : Str
   rw [e] at hmod ⊢
   exact accept_iff_partial reg rb ct b exro hmod hwf h1
 
+/-- **two-phase reading, schema level.** For every composition-free schema (any defaults, conforming or not,
+required or not, counted or not) the validator with `DefaultsSet` accepts exactly when the value COMPLETED by the
+applicable defaults satisfies the schema read as a request. (`defaults_neutral` is the case where completing
+changes nothing for the verdict.) -/
+theorem completed_reading (exro : Bool) (s : RS) (v : V) (hc : compFree s = true) (hs : s.wf = true)
+    (hv : v.wf = true) : (visD true exro s v).isSome = true ↔ SatReq exro s (complete exro s v) := by
+  rw [visD_completed_visit exro s v hc hs hv]; exact visit_asreq_iff exro s _
+
+/-- harmless defaults: completing the value does not change whether it satisfies the schema -/
+theorem harmless_completion (exro : Bool) (s : RS) (v : V) (hc : compFree s = true) (hs : s.wf = true)
+    (hv : v.wf = true) (hh : dfltsHarmless exro s = true) :
+    SatReq exro s (complete exro s v) ↔ SatReq exro s v := by
+  rw [← completed_reading exro s v hc hs hv]
+  exact defaults_neutral exro s v hs hv (by simp [defaultsNeutral, hc, hh])
+
+/-- **C06 with default-setting ON, two-phase reading, whole decision.** For a composition-free selected schema,
+outside FormFieldUnparsable and NoBodyEncoder and inside the model: request-body validation accepts exactly when
+the value the body encodes, completed by the declared defaults, satisfies the schema read as a request. -/
+theorem accept_iff_completed_partial (reg : List (Str × DecK)) (rb : ReqBody) (ct : Str) (b : BodyIn) (exro : Bool)
+    (hmod : validateRequestBodyD reg rb ct b exro true ≠ .panic ∧ validateRequestBodyD reg rb ct b exro true ≠ .unmodelled)
+    (hwf : formEncsWF reg rb ct b = true)
+    (h1 : exclFormUnparsable reg rb ct b = false)
+    (h2 : exclNoBodyEncoder reg rb ct b exro true = false)
+    (hcf : caseCompFree reg rb ct b = true) (hw : caseWF reg rb ct b = true) :
+    (validateRequestBodyD reg rb ct b exro true).isOk = true ↔ AcceptD reg rb ct b exro true := by
+  unfold AcceptD
+  by_cases ht : b.text = []
+  · cases hr : rb.required <;> simp [validateRequestBodyD, ht, hr, Outcome.isOk]
+  · by_cases hc : rb.content = []
+    · simp [validateRequestBodyD, ht, hc, Outcome.isOk]
+    · rw [← contentGet_spec]
+      cases hs : contentGet rb.content ct with
+      | none => simp [validateRequestBodyD, ht, hc, hs, Outcome.isOk]
+      | some mt =>
+        cases hn : mt.schema with
+        | none => simp [validateRequestBodyD, ht, hc, hs, hn, Outcome.isOk]
+        | some s =>
+          have hd := decode_agrees reg rb ct b mt s ht hc hs hn h1 hwf
+          have hout : validateRequestBodyD reg rb ct b exro true =
+              (match decodeBody reg ct s mt.encs b with
+               | .err => .decodeErr | .panic => .panic | .unmodelled => .unmodelled
+               | .val v => validateValue (hasEncoder (lookup (base ct) reg)) exro true s v) := by
+            simp only [validateRequestBodyD, ht, hc, hs, hn, if_false]
+            cases decodeBody reg ct s mt.encs b <;> rfl
+          rw [hout] at hmod ⊢
+          cases hdec : decodeBody reg ct s mt.encs b with
+          | err =>
+            have := hd.2 hdec
+            simp [Outcome.isOk, ht, hc, hn, this]
+          | panic => simp [hdec] at hmod
+          | unmodelled => simp [hdec] at hmod
+          | val v =>
+            have hsv := hd.1 v hdec
+            have hdv := decodedValue_of_val reg rb ct b mt s v ht hc hs hn hdec
+            unfold caseCompFree at hcf
+            unfold caseWF at hw
+            unfold exclNoBodyEncoder at h2
+            simp only [hdv, Bool.true_and, Bool.and_eq_true] at hcf hw h2
+            have hvis := completed_reading exro s v hcf hw.1 hw.2
+            simp only [hdec] at hmod ⊢
+            unfold validateValue at hmod ⊢
+            simp only [Bool.not_true, Bool.false_eq_true, if_false] at hmod ⊢
+            by_cases hu : (dfltUnderNot s || (!hasEncoder (lookup (base ct) reg) && nestedDflt s && firesD exro s v)) = true
+            · simp [hu] at hmod
+            · simp only [hu, Bool.false_eq_true, if_false]
+              have h2' : (firesD exro s v && !hasEncoder (lookup (base ct) reg)) = false := by
+                cases hf : firesD exro s v <;> cases he : hasEncoder (lookup (base ct) reg) <;> simp_all
+              refine Iff.trans (b := SatReq exro s (complete exro s v)) ?_ ?_
+              · rw [← hvis]
+                cases visD true exro s v <;> simp [Outcome.isOk, h2']
+              · constructor
+                · intro hsat
+                  exact Or.inr ⟨ht, Or.inr ⟨mt, rfl, Or.inr ⟨s, v, hn, hsv, by simpa using hsat⟩⟩⟩
+                · rintro (⟨h0, _⟩ | ⟨_, h0 | ⟨mt', hmt', hsch | ⟨s', v', hs', hv', hsat⟩⟩⟩)
+                  · exact absurd h0 ht
+                  · exact absurd h0 hc
+                  · cases hmt'; rw [hn] at hsch; cases hsch
+                  · cases hmt'
+                    rw [hn] at hs'; cases hs'
+                    rw [hsv] at hv'; cases hv'
+                    simpa using hsat
+
+/-- the executable oracle of the two-phase reading decides it -/
+theorem acceptDB_iff (reg : List (Str × DecK)) (rb : ReqBody) (ct : Str) (b : BodyIn) (exro ds : Bool) :
+    acceptDB reg rb ct b exro ds = true ↔ AcceptD reg rb ct b exro ds := by
+  unfold acceptDB AcceptD
+  by_cases ht : b.text = []
+  · cases hr : rb.required <;> simp [ht, hr]
+  · by_cases hc : rb.content = []
+    · simp [ht, hc]
+    · rw [if_neg ht, if_neg hc]
+      have hA : ∀ P : Prop, ((b.text = [] ∧ rb.required = false) ∨ (b.text ≠ [] ∧ (rb.content = [] ∨ P))) ↔ P := by
+        intro P
+        constructor
+        · rintro (⟨h0, _⟩ | ⟨_, h0 | h0⟩)
+          · exact absurd h0 ht
+          · exact absurd h0 hc
+          · exact h0
+        · intro h; exact Or.inr ⟨ht, Or.inr h⟩
+      rw [hA]
+      cases hs : firstSome rb.content (candidates ct) with
+      | none => simp
+      | some mt =>
+        cases hn : mt.schema with
+        | none => simp only [hn, true_iff]; exact ⟨mt, rfl, Or.inl hn⟩
+        | some s =>
+          cases hd : specDecode reg ct s mt.encs b with
+          | none =>
+            simp only [hn, hd, Bool.false_eq_true, false_iff]
+            rintro ⟨mt', hmt', hsch | ⟨s', v', hs', hv', _⟩⟩
+            · cases hmt'; rw [hn] at hsch; cases hsch
+            · cases hmt'; rw [hn] at hs'; cases hs'; rw [hd] at hv'; cases hv'
+          | some v =>
+            simp only [hn, hd]
+            constructor
+            · intro h; exact ⟨mt, rfl, Or.inr ⟨s, v, hn, hd, (satReqB_iff exro s _).mp h⟩⟩
+            · rintro ⟨mt', hmt', hsch | ⟨s', v', hs', hv', hsat⟩⟩
+              · cases hmt'; rw [hn] at hsch; cases hsch
+              · cases hmt'; rw [hn] at hs'; cases hs'; rw [hd] at hv'; cases hv'
+                exact (satReqB_iff exro s _).mpr hsat
+
 /-- F-C06-4 (NoBodyEncoder): `b=x` against `{a: integer default 1, b: string}` sent as
 application/x-www-form-urlencoded — the value `{b: "x"}` satisfies the schema, the property accepts; with
 default-setting on the model (as the code) answers "rewriting failed"; with defaults skipped it accepts; the same
